@@ -92,6 +92,13 @@ func loadMutants(verif, id string) []mutant {
 			}
 		}
 	}
+	// behaviour-preserving refactorings written by independent agents: every one of them must be
+	// silent under every property (a refactoring of C03's code can trip a rule of C16)
+	eqs, _ := filepath.Glob(filepath.Join(verif, "equiv", "*.diff"))
+	sort.Strings(eqs)
+	for _, e := range eqs {
+		out = append(out, mutant{ID: "equiv/" + strings.TrimSuffix(filepath.Base(e), ".diff"), Property: id, Kind: "equiv", patch: e})
+	}
 	// seeded changes
 	dirs, _ := filepath.Glob(filepath.Join(verif, "seeded", "*", "meta.json"))
 	sort.Strings(dirs)
@@ -210,7 +217,8 @@ func runSelftest(repo, verif, id string) *selftestResult {
 		detail string
 	}
 	outs := make([]outcome, len(ms))
-	sem := make(chan struct{}, 8)
+	sem := make(chan struct{}, 16)
+	relevant := relevantFiles(self, repo, verif, id)
 	var wg sync.WaitGroup
 	for i, m := range ms {
 		wg.Add(1)
@@ -218,6 +226,10 @@ func runSelftest(repo, verif, id string) *selftestResult {
 			defer wg.Done()
 			sem <- struct{}{}
 			defer func() { <-sem }()
+			if strings.HasPrefix(m.ID, "equiv/") && !touches(m.patch, relevant) {
+				outs[i] = outcome{m, "irrelevant", ""}
+				return
+			}
 			ov, ok, why := overlayFor(repo, m)
 			if !ok {
 				outs[i] = outcome{m, "skipped", why}
@@ -241,7 +253,11 @@ func runSelftest(repo, verif, id string) *selftestResult {
 				case 0:
 					outs[i] = outcome{m, "silent", ""}
 				case 2:
-					outs[i] = outcome{m, "skipped", "variant does not type-check: " + lastLine(text)}
+					if strings.Contains(text, "UNDECIDED") {
+						outs[i] = outcome{m, "noisy", "UNDECIDED: " + lastLine(text)}
+					} else {
+						outs[i] = outcome{m, "skipped", "variant does not type-check: " + lastLine(text)}
+					}
 				default:
 					outs[i] = outcome{m, "noisy", firstViolation(text)}
 				}
@@ -302,4 +318,33 @@ func firstViolation(text string) string {
 func lastLine(text string) string {
 	ls := strings.Split(strings.TrimSpace(text), "\n")
 	return ls[len(ls)-1]
+}
+
+var posFile = regexp.MustCompile(` at ([A-Za-z0-9_./-]+\.go):\d+`)
+
+// relevantFiles runs the property on the unchanged tree and collects the source files its
+// obligations point into; a refactoring that touches none of them cannot change the verdict.
+func relevantFiles(self, repo, verif, id string) map[string]bool {
+	out := map[string]bool{}
+	b, _ := exec.Command(self, "-property", id, "-tier", "quick", "-repo", repo, "-verif", verif, "-no-evidence", "-no-selftest", "-v").CombinedOutput()
+	for _, m := range posFile.FindAllStringSubmatch(string(b), -1) {
+		out[m[1]] = true
+	}
+	return out
+}
+
+func touches(patch string, files map[string]bool) bool {
+	if len(files) == 0 {
+		return true
+	}
+	b, err := os.ReadFile(patch)
+	if err != nil {
+		return true
+	}
+	for _, m := range diffFile.FindAllStringSubmatch(string(b), -1) {
+		if files[m[1]] {
+			return true
+		}
+	}
+	return false
 }
